@@ -42,13 +42,15 @@ LEVEL_NOTE = ('Trusted: NumPy arithmetic, Hypothesis, evaluation of ODL leaf '
               'derived per case from a perturbed re-run of the reference '
               '(rounding-error propagation through the same tree).')
 DESIGN_REF = 'DESIGN.md section 5, C04'
-BUDGET = {'quick': 8000, 'thorough': 60000}
+BUDGET = {'quick': 6000, 'thorough': 60000}
 NOISE = 4.0
 TOLERANCES = {
     'value': '|got-ref|_max <= 16*delta + 64*eps(dtype)*(depth+1)*|ref|_max '
              '+ tiny; delta = max deviation of two re-runs of the reference '
-             'in which every node result is perturbed entry-wise by '
-             '+-4*eps (measures how rounding propagates through this tree at '
+             'in which every node result and every computed argument (a*x, '
+             'v*x, x-v) is perturbed entry-wise by +-4*eps, real and '
+             'imaginary parts independently (measures how rounding '
+             'propagates through this tree at '
              'this point); cases with delta > 1e-4*|ref| (ill-conditioned) '
              'or a non-finite reference are counted trivial',
     'linearity': 'same bound, with the magnitudes of the three evaluations '
@@ -229,14 +231,7 @@ def _known_inplace_region(env, b):
     return None
 
 
-def _aliasing_leaf(node):
-    """The operator returns (a view of) its argument when called
-    out-of-place: RealPart / ImagPart and what merely forwards to them."""
-    if node['op'] in ('pos', 'pow'):
-        return _aliasing_leaf(node['a'])
-    if node['op'] == 'comp':
-        return _aliasing_leaf(node['a']) and _aliasing_leaf(node['b'])
-    return node['op'] == 'leaf' and node['kind'] in ('realpart', 'imagpart')
+_aliasing_leaf = ex.aliases_input
 
 
 def known_region(types, tree):
